@@ -200,6 +200,69 @@ static struct rqent *rqtab;
 static int rqn, rqcap, rq_next_ord;
 static int rq_released;
 
+/* live-block accounting (C19): once switched on in a world, every block the program under test allocates is remembered until it
+   is freed; what is left when everything has been shut down is compared, site by site, with the run in which no allocation failed */
+struct lblock {
+    void *p;
+    const char *fn;
+    int line;
+};
+static struct lblock *lbtab;
+static int lbn, lbcap, lb_on;
+static int own_fn(const char *fn) { return !strncmp(fn, "op_", 3) || !strncmp(fn, "hx", 2) || !strncmp(fn, "h_", 2) || !strncmp(fn, "put_", 4); }
+void h_live_set(int on) {
+    pthread_mutex_lock(&almu);
+    lb_on = on;
+    lbn = 0;
+    pthread_mutex_unlock(&almu);
+}
+int h_live_on(void) { return lb_on; }
+static void lb_add(void *p, const char *fn, int line) {
+    if (!lb_on || !p || own_fn(fn))
+        return;
+    pthread_mutex_lock(&almu);
+    if (lbn == lbcap) {
+        lbcap = lbcap * 2 + 256;
+        lbtab = realloc(lbtab, lbcap * sizeof(*lbtab));
+    }
+    lbtab[lbn].p = p;
+    lbtab[lbn].fn = fn;
+    lbtab[lbn++].line = line;
+    pthread_mutex_unlock(&almu);
+}
+static void lb_del(void *p) {
+    if (!lb_on || !p)
+        return;
+    pthread_mutex_lock(&almu);
+    for (int i = lbn - 1; i >= 0; i--)
+        if (lbtab[i].p == p) {
+            lbtab[i] = lbtab[--lbn];
+            break;
+        }
+    pthread_mutex_unlock(&almu);
+}
+static int lbcmp(const void *a, const void *b) {
+    const struct lblock *x = a, *y = b;
+    int c = strcmp(x->fn, y->fn);
+    return c ? c : x->line - y->line;
+}
+/* " live:fn@line=count,..." sorted by site */
+void h_live_print(FILE *out) {
+    pthread_mutex_lock(&almu);
+    qsort(lbtab, lbn, sizeof(*lbtab), lbcmp);
+    fputs(" live:", out);
+    if (!lbn)
+        fputs("-", out);
+    for (int i = 0; i < lbn;) {
+        int j = i;
+        while (j < lbn && !lbcmp(&lbtab[i], &lbtab[j]))
+            j++;
+        fprintf(out, "%s@%d=%d,", lbtab[i].fn, lbtab[i].line, j - i);
+        i = j;
+    }
+    pthread_mutex_unlock(&almu);
+}
+
 void h_alloc_arm(long fail_at, int track_sites) {
     pthread_mutex_lock(&almu);
     alloc_count = 0;
@@ -285,6 +348,7 @@ void *h_malloc(size_t n, const char *fn, int line) {
     if (alloc_tick(fn, line))
         return NULL;
     p = malloc(n);
+    lb_add(p, fn, line);
     if (p && !strcmp(fn, "newrequest"))
         rq_register(p);
     if (p && (!strcmp(fn, "parsenaptrrr") || !strcmp(fn, "parsesrvrr")))
@@ -292,19 +356,31 @@ void *h_malloc(size_t n, const char *fn, int line) {
     return p;
 }
 void *h_calloc(size_t a, size_t b, const char *fn, int line) {
+    void *p;
     if (alloc_tick(fn, line))
         return NULL;
-    return calloc(a, b);
+    p = calloc(a, b);
+    lb_add(p, fn, line);
+    return p;
 }
 void *h_realloc(void *p, size_t n, const char *fn, int line) {
+    void *q;
     if (n && alloc_tick(fn, line))
         return NULL;
-    return realloc(p, n);
+    q = realloc(p, n);
+    if (q || !n) {
+        lb_del(p);
+        lb_add(q, fn, line);
+    }
+    return q;
 }
 char *h_strdup(const char *s, const char *fn, int line) {
+    char *p;
     if (alloc_tick(fn, line))
         return NULL;
-    return strdup(s);
+    p = strdup(s);
+    lb_add(p, fn, line);
+    return p;
 }
 void h_free(void *p, const char *fn, int line) {
     (void)line;
@@ -318,6 +394,7 @@ void h_free(void *p, const char *fn, int line) {
             }
         pthread_mutex_unlock(&almu);
     }
+    lb_del(p);
     free(p);
 }
 
